@@ -25,8 +25,8 @@ RULES = [
     (r'std::numeric_limits<double>::infinity\(\)', '__builtin_inf()', 0, 1),
 ]
 # (a container never holds 2^64-1 members: the element counter does not wrap; listed as an assumption)
-REQ_I = 'VX_I() && *ec_p == 0 && vx_toks == 0 && vx_top.index_ < SIZE_MAX'
-ASG = '*ec_p, self->nesting_depth_, vx_depth, vx_top, vx_pushes, vx_pops, vx_m_kind, vx_m_st, vx_m_depth, vx_below_kind, vx_bad, vx_toks'
+REQ_I = 'VX_I() && *ec_p == 0 && vx_toks == 0 && vx_bytes_toks == 0 && vx_top.index_ < SIZE_MAX'
+ASG = '*ec_p, vx_bytes_toks, vx_bytes_fmt, self->nesting_depth_, vx_depth, vx_top, vx_pushes, vx_pops, vx_m_kind, vx_m_st, vx_m_depth, vx_below_kind, vx_bad, vx_toks'
 def value_contract(what):
     return [('requires', REQ_I), ('requires', 'vx_value_may_follow()'), ('assigns', ASG),
             ('ensures', '[C08] %s: the output stays a prefix of a well-formed JSON text (a comma is written exactly between the elements of an array), the representation invariant is kept' % what, 'VX_I()'),
@@ -42,6 +42,22 @@ def end_contract(kind, k):
              'VX_I() && vx_depth == __CPROVER_old(vx_depth) - 1 && vx_m_st == S_AFTER_VALUE && vx_toks == 1')]
 KEY = [('requires', REQ_I), ('requires', 'vx_m_kind == K_OBJECT && (vx_m_st == S_EMPTY || vx_m_st == S_AFTER_VALUE)'), ('assigns', ASG),
        ('ensures', '[C08] a member name: comma iff not the first member, then the quoted name and a colon; the object now expects the value', 'VX_I() && vx_m_st == S_AFTER_COLON && vx_depth == __CPROVER_old(vx_depth)')]
+# ---- visit_byte_string: which of the three RFC 4648 writers is used (option > tag hint > base64url) and that one quoted token is written
+BYTES_RULES = [
+    (r'jsoncons::detail::resolve_byte_string_chars_format\(options_\.byte_string_format\(\),', 'resolve_byte_string_chars_format(self->byte_string_format_,', 1),
+    (r'byte_string_chars_format (encoding_hint|format)\b', r'int \1', 2),
+    (r'byte_string_chars_format::(\w+)', r'byte_string_chars_format_\1', 0, 12), (r'semantic_tag::(\w+)', r'semantic_tag_\1', 3),
+    (r"sink_\.push_back\('\\\"'\);\s*(?:std::size_t length = )?bytes_to_(base16|base64|base64url)\(b\.begin\(\),\s*b\.end\(\),\s*sink_\);\s*sink_\.push_back\('\\\"'\);", r'VX_TOK_BYTES(byte_string_chars_format_\1);', 3),
+]
+WANT = ('((self->byte_string_format_ == byte_string_chars_format_base16 || self->byte_string_format_ == byte_string_chars_format_base64 || self->byte_string_format_ == byte_string_chars_format_base64url) ? self->byte_string_format_ : '
+        'tag == semantic_tag_base16 ? byte_string_chars_format_base16 : tag == semantic_tag_base64 ? byte_string_chars_format_base64 : byte_string_chars_format_base64url)')
+BYTES = value_contract('a byte string') + [
+    ('ensures', '[C08] a byte string is written as one quoted string produced by exactly one of the RFC 4648 writers: the one the byte_string_format option names, else the one the tag hints at (base16, base64, base64url), else base64url',
+     'vx_bytes_toks == 1 && vx_bytes_fmt == %s' % WANT)]
+RESOLVE = [('assigns', ''),
+           ('ensures', '[C08][C05] the first of (format1, format2) that names an encoding wins, otherwise the default; the result is never none when the default is an encoding',
+            '__CPROVER_return_value == ((format1 == byte_string_chars_format_base16 || format1 == byte_string_chars_format_base64 || format1 == byte_string_chars_format_base64url) ? format1 : '
+            '(format2 == byte_string_chars_format_base16 || format2 == byte_string_chars_format_base64 || format2 == byte_string_chars_format_base64url) ? format2 : default_format)')]
 def V(name, anchor, csig, contract, extra=()):
     return FuncSpec(name, E, anchor, ordinal=1, count=2, csig=csig, contract=contract, aliases=AL, rules=list(extra) + RULES)
 VISITS = [
@@ -56,8 +72,11 @@ VISITS = [
     V('visit_int64', r'visit_int64\(int64_t value,\s*semantic_tag,\s*const ser_context&,\s*std::error_code&\) final', 'void visit_int64(struct compact_encoder* self, int64_t value, int* ec_p)', value_contract('a signed integer')),
     V('visit_uint64', r'visit_uint64\(uint64_t value,\s*semantic_tag,\s*const ser_context&,\s*std::error_code&\) final', 'void visit_uint64(struct compact_encoder* self, uint64_t value, int* ec_p)', value_contract('an unsigned integer')),
     V('visit_bool', r'visit_bool\(bool value, semantic_tag, const ser_context&, std::error_code&\) final', 'void visit_bool(struct compact_encoder* self, bool value, int* ec_p)', value_contract('a boolean')),
+    V('visit_byte_string', r'visit_byte_string\(const byte_string_view& b,\s*semantic_tag tag,\s*const ser_context&,\s*std::error_code&\) final', 'void visit_byte_string(struct compact_encoder* self, uint8_t tag, int* ec_p)', BYTES, extra=BYTES_RULES),
 ]
-SPECS = [EnumSpec('json_errc', 'include/jsoncons/json_error.hpp')]
+SPECS = [EnumSpec('json_errc', 'include/jsoncons/json_error.hpp'), EnumSpec('semantic_tag', 'include/jsoncons/semantic_tag.hpp'), EnumSpec('byte_string_chars_format', 'include/jsoncons/json_options.hpp'),
+         FuncSpec('resolve_byte_string_chars_format', 'include/jsoncons/json_encoders.hpp', r'byte_string_chars_format resolve_byte_string_chars_format\(byte_string_chars_format format1,', count=1,
+                  csig='static int resolve_byte_string_chars_format(int format1, int format2, int default_format)', contract=RESOLVE, rules=[(r'byte_string_chars_format::(\w+)', r'byte_string_chars_format_\1', 6), (r'byte_string_chars_format sink;', 'int sink;', 1)])]
 GROUPS = {'visits': VISITS}
 HARNESSES = [Harness(v.name, 'h_' + v.name, enforce=v.name, method='LF', props=['C08'] + (['C10'] if 'begin' in v.name else []),
                      note='second definition of the name in json_encoder.hpp = basic_compact_json_encoder (the first is the pretty-printing encoder, not under contract)') for v in VISITS]
